@@ -16,6 +16,7 @@ import (
 //   - a package-level variable (assignment, inc/dec, element or field store), or
 //   - a variable captured by a closure that is stored in a package-level variable (state such
 //     as the counter behind types.TyVar).
+//
 // Each site is classified by how it is protected: "mutex" (lexically between a Lock and an
 // Unlock call of the same function), "atomic" (an atomic.* call on its address) or "plain".
 // The result is the inventory that lean/Yae/Props/C14.lean is instantiated with.
